@@ -635,11 +635,54 @@ func Edit(rng *rand.Rand, s string) string {
 	case 9:
 		return FlipCase(rng, s)
 	case 10:
+		if rng.IntN(2) == 0 {
+			// the ACE alias of a label: idna maps "xn--<label>-" back to <label>
+			labels[li] = "xn--" + labels[li] + "-"
+			break
+		}
 		return s + "."
 	default: // prepend labels
 		return randLabel() + "." + s
 	}
 	return strings.Join(labels, ".")
+}
+
+// SubstBases are the canonical names of the single-byte substitution family:
+// a full name, a partial prefix name and the bare root of each family.
+var SubstBases = []string{
+	"4.3.2.1.in-addr.arpa",
+	"10.in-addr.arpa",
+	"in-addr.arpa",
+	"1.3.b.5.4.1.8.6.0.0.0.0.0.0.0.0.0.0.0.0.0.1.0.0.0.0.7.4.6.0.6.2.ip6.arpa",
+	"b.a.ip6.arpa",
+	"ip6.arpa",
+}
+
+// ForEachSubst calls f with every name obtained from a base by replacing one
+// byte, at every position, by every byte value 0..255 (the unchanged name once
+// per base).  The family is exhaustive in its class: any decoder that treats
+// some byte as another one (case folding by bit tricks, look-alike control
+// bytes, sign/space tolerant number parsing, ...) accepts one of these names
+// although it is not the canonical name of any address or prefix.
+func ForEachSubst(f func(base, s string)) (n int) {
+	for _, base := range SubstBases {
+		f(base, base)
+		n++
+		b := []byte(base)
+		for i := range b {
+			orig := b[i]
+			for v := 0; v < 256; v++ {
+				if byte(v) == orig {
+					continue
+				}
+				b[i] = byte(v)
+				f(base, string(b))
+				n++
+			}
+			b[i] = orig
+		}
+	}
+	return n
 }
 
 func record(args []string) error {
@@ -666,6 +709,24 @@ func record(args []string) error {
 	}
 	calls, accepts := 0, 0
 	dd := vh.NewDedup()
+	// Single-byte substitutions: judged here by the transliteration-free
+	// relations (totality, error type, accepted => canonical name of the
+	// result), and every conforming observation is logged for TLC, which
+	// judges acceptance and rejection with Arpa.tla's DecodeAddr.
+	substAcc := 0
+	nSubst := ForEachSubst(func(_, s string) {
+		calls++
+		dd.Add([]byte(s))
+		what, d := JudgeIP(s, nil)
+		if what != "" {
+			res.Mismatch(Key("IPFromReversedAddr", s), what, d)
+			return
+		}
+		if d.Got.Ok {
+			substAcc++
+		}
+		tr.Emit(EventOf("ip", s, true, d.Got))
+	})
 	for i := 0; i < total; i++ {
 		log := i%stride == 0
 		ip := RandAddr(rng)
@@ -743,7 +804,8 @@ func record(args []string) error {
 	if err := tr.Close(); err != nil {
 		return err
 	}
-	return res.Close(map[string]any{"cases": total, "calls": calls, "events": tr.N, "edited_accepts": accepts, "distinct_nontrivial": dd.N()})
+	return res.Close(map[string]any{"cases": total, "calls": calls, "events": tr.N, "edited_accepts": accepts, "distinct_nontrivial": dd.N(),
+		"subst_inputs": nSubst, "subst_accepts": substAcc})
 }
 
 // ------------------------------------------------------------ probe (--replay)
